@@ -18,7 +18,9 @@ Open Scope nat_scope.
    WHAT IS ORACLE / K ONLY (no theorem): the TEXT of the near-miss message of strict=True (the model has exception classes, the
    closest match is difflib's answer handed in as `hint`); that the dtype of a new variable is the one ASKED for (astype_dt is a Section
    variable; oracle clause add_variable|dtype-not-imposed); the content written by a scalar / list `values` replacement
-   (C09_values_setter_array_content covers ndarray replacements). *)
+   (C09_values_setter_array_content covers ndarray replacements; for scalar / list replacements the content is compared by K only);
+   `nbytes` of a LINKER (it adds the submodels' bytes: not modelled, not queried by the generator).
+   NOT IN THE MODEL AT ALL: dtypes other than float / int / bool / str(width) / object and the sub-array request RSub. *)
 Section C09.
   Variable pycast : dtype -> pyval -> outcome pyval.
   Variable arrcast : dtype -> dtype -> pyval -> outcome pyval.
